@@ -9,26 +9,43 @@ open Inj Inj.Counter
 /-- **Tie to the source**: `will_execute` stores 0 into the call-site counter before installing. -/
 theorem C07_source_resets : Generated.Layout.counterResetOnInstall = true := by decide
 
-/-- verdict of one lifetime taken alone (counter starting at zero) -/
-def aloneVerdict (cp : Bool) (l : Nat × List Bool × Bool) : List CallOut × ExitOut :=
-  ((runCalls l.1 0 l.2.1).1, verifierDrop cp l.1 (runCalls l.1 0 l.2.1).2 l.2.2)
+/-- verdict of one lifetime taken alone: every installation counts from zero -/
+def aloneVerdict (cp : Bool) (l : Nat × List (List Bool) × Bool) : List (List CallOut) × ExitOut :=
+  ((runInstalls true l.1 0 l.2.1).1, exitVerdict cp l.1 l.2.1 (runInstalls true l.1 0 l.2.1).2 l.2.2)
+
+/-- with the reset, what a sequence of installations does is independent of what the counter
+    held before, provided at least one installation happens -/
+theorem runInstalls_reset_indep (n : Nat) (installs : List (List Bool)) (c1 c2 : Nat) :
+    (runInstalls true n c1 installs).1 = (runInstalls true n c2 installs).1 ∧
+    (installs ≠ [] → (runInstalls true n c1 installs).2 = (runInstalls true n c2 installs).2) := by
+  cases installs with
+  | nil => simp [runInstalls]
+  | cons calls rest => simp [runInstalls]
 
 /-- **Locality**: for every sequence of lifetimes evaluating the same `fake!(…, times: N)`
-    expression, with any calls in each, each ending normally or by unwinding from a panic in its
-    body, whatever the counter held before, every lifetime's call outcomes and exit verdict are
-    those it would have alone. -/
-theorem C07_local (cp : Bool) (hist : List (Nat × List Bool × Bool)) :
+    expression — any number of installations of it within a lifetime (a helper or a loop), any
+    calls after each, each lifetime ending normally or by unwinding from a panic in its body —
+    whatever the counter held before, every installation's call outcomes and every lifetime's
+    exit verdict are those it would have with each installation counting from zero. -/
+theorem C07_local (cp : Bool) (hist : List (Nat × List (List Bool) × Bool)) :
     ∀ cnt0, lifetimes Generated.Layout.counterResetOnInstall cp cnt0 hist = hist.map (aloneVerdict cp) := by
   rw [C07_source_resets]
   induction hist with
   | nil => intro _; rfl
   | cons l rest ih =>
     intro cnt0
-    obtain ⟨n, calls, unw⟩ := l
-    simp only [lifetimes, lifetime, if_true, List.map, aloneVerdict, ih]
+    obtain ⟨n, installs, unw⟩ := l
+    obtain ⟨h1, h2⟩ := runInstalls_reset_indep n installs cnt0 0
+    simp only [lifetimes, List.map, aloneVerdict, ih]
+    congr 1
+    cases installs with
+    | nil => simp [runInstalls, exitVerdict]
+    | cons c r =>
+      have := h2 (by simp)
+      rw [h1, this]
 
-/-- same set-up, same verdict: two lifetimes with the same (N, calls) get the same result -/
-theorem C07_repeatable (cp : Bool) (l : Nat × List Bool × Bool) (before after : List (Nat × List Bool × Bool)) (cnt0 : Nat) :
+/-- same set-up, same verdict: two lifetimes with the same (N, installs, exit) get the same result -/
+theorem C07_repeatable (cp : Bool) (l : Nat × List (List Bool) × Bool) (before after : List (Nat × List (List Bool) × Bool)) (cnt0 : Nat) :
     (lifetimes Generated.Layout.counterResetOnInstall cp cnt0 (before ++ l :: after)).getD before.length ([], ExitOut.ok) =
       aloneVerdict cp l := by
   rw [C07_local]
@@ -37,15 +54,21 @@ theorem C07_repeatable (cp : Bool) (l : Nat × List Bool × Bool) (before after 
 /-- Without the reset the property is false (finding F3 on the pinned tree): second lifetime,
     first call. -/
 theorem C07_without_reset_false :
-    lifetimes false true 0 [(1, [true], false), (1, [true], false)] ≠
-      [(1, [true], false), (1, [true], false)].map (aloneVerdict true) := by
+    lifetimes false true 0 [(1, [[true]], false), (1, [[true]], false)] ≠
+      [(1, [[true]], false), (1, [[true]], false)].map (aloneVerdict true) := by
   decide
 
 /-- the same after a lifetime that ended by unwinding: the silent verifier must not leave its
     count behind either -/
 theorem C07_without_reset_false_after_unwind :
-    lifetimes false true 0 [(2, [true], true), (2, [true, true], false)] ≠
-      [(2, [true], true), (2, [true, true], false)].map (aloneVerdict true) := by
+    lifetimes false true 0 [(2, [[true]], true), (2, [[true, true]], false)] ≠
+      [(2, [[true]], true), (2, [[true, true]], false)].map (aloneVerdict true) := by
+  decide
+
+/-- and within one lifetime: a second installation built by the same line must not inherit what
+    the first one absorbed -/
+theorem C07_without_reset_false_within_lifetime :
+    lifetimes false true 0 [(1, [[true], [true]], false)] ≠ [(1, [[true], [true]], false)].map (aloneVerdict true) := by
   decide
 
 end Inj.Props
@@ -55,3 +78,5 @@ end Inj.Props
 #print axioms Inj.Props.C07_repeatable
 #print axioms Inj.Props.C07_without_reset_false
 #print axioms Inj.Props.C07_without_reset_false_after_unwind
+#print axioms Inj.Props.C07_without_reset_false_within_lifetime
+#print axioms Inj.Props.runInstalls_reset_indep
